@@ -187,7 +187,7 @@ func build(s archSpec) (*procbuilder.Machine, error) {
 
 // the co-implemented opcode set (both back-ends implement them); widths they work at
 var coImplAll = []string{"nop", "rset", "inc", "dec", "clr", "add", "mult", "div", "cpy", "j", "jz", "i2r", "r2o", "i2rw", "r2owa",
-	"addp", "multp", "divp"}
+	"addp", "multp", "divp", "ro2rri"}
 var coImplSmall = []string{"and", "or", "xor", "nand", "nor", "xnor", "not", "mod"}
 
 func shape(op string) string {
@@ -277,6 +277,13 @@ func directedCases() []struct {
 				for k := 0; k < nreg; k++ { // distinct, non-zero, never equal quotients
 					src = append(src, fmt.Sprintf("rset r%d %d", k, (37*(k+1)+11*k*k+3)%200+2))
 				}
+				if op == "ro2rri" { // the registers hold ROM addresses (program words, then the data words)
+					src = nil
+					for k := 0; k < nreg; k++ {
+						src = append(src, fmt.Sprintf("rset r%d %d", k, k+1))
+					}
+					src[nreg-1] = fmt.Sprintf("rset r%d %d", last, nreg+6) // the first data word
+				}
 				pairs := [][2]int{{0, 1}, {1, 0}, {last, 0}, {0, last}, {last, last}}
 				switch sh {
 				case "":
@@ -311,6 +318,20 @@ func directedCases() []struct {
 					src []string
 				}{s, src})
 			}
+		}
+	}
+	// ro2rri on machines whose registers are wider than the ROM words (no rset, no wide immediate): the
+	// word read is zero-extended into a register whose upper bits were set before
+	for _, r := range []int{1, 2, 3} {
+		for _, rsize := range []int{16, 32, 64} {
+			s := archSpec{mode: "ha", rsize: rsize, r: r, o: 4, ops: []string{"dec", "inc", "j", "ro2rri"}}
+			last := (1 << uint(r)) - 1
+			src := []string{"dec r0", "inc r1", "ro2rri r0 r1", fmt.Sprintf("dec r%d", last), "inc r1", fmt.Sprintf("ro2rri r%d r1", last),
+				"inc r1", "inc r1", "inc r1", "inc r1", "inc r1", "dec r0", "ro2rri r0 r1", "j 13"}
+			res = append(res, struct {
+				s   archSpec
+				src []string
+			}{s, src})
 		}
 	}
 	return res
@@ -359,6 +380,14 @@ func genProgram(r *common.Rng, s archSpec) []string {
 		if i == n-1 && hasJ {
 			op = "j" // never fall off the end of the program
 		}
+		if op == "ro2rri" && hasRset && i+2 < n && r.Chance(3, 4) {
+			// an address inside the ROM (program, or the data that follows it) in the source register
+			rs := r.Intn(1 << uint(s.r))
+			lines = append(lines, fmt.Sprintf("rset r%d %d", rs, r.Intn(n+3)))
+			lines = append(lines, fmt.Sprintf("ro2rri r%d r%d", r.Intn(1<<uint(s.r)), rs))
+			i++
+			continue
+		}
 		toks := []string{op}
 		for _, c := range shape(op) {
 			switch c {
@@ -402,6 +431,9 @@ func genArch(r *common.Rng) archSpec {
 	}
 	var cand []string
 	for _, o := range pool {
+		if o == "ro2rri" && s.o > s.rsize {
+			continue // (the template's part-select _rK[O-1:0] needs O <= Rsize; wider ROM addresses are its own "unchecked code")
+		}
 		if (o == "i2r" || o == "i2rw") && s.n == 0 {
 			continue
 		}
@@ -599,6 +631,39 @@ func applyStim(vm *procbuilder.VM, rsize int, st stim) {
 	}
 }
 
+// dataFor: the data words that follow the program in the ROM of a machine with ro2rri — a function of
+// the source, so that a replay file (architecture, source, stimulus) gives the same machine
+func dataFor(s archSpec, src []string, words int, maxWord int) []string {
+	has := false
+	for _, o := range s.ops {
+		has = has || o == "ro2rri"
+	}
+	if !has {
+		return nil
+	}
+	h := uint64(1469598103934665603)
+	for _, l := range src {
+		for _, c := range []byte(l) {
+			h = (h ^ uint64(c)) * 1099511628211
+		}
+	}
+	room := (1 << uint(s.o)) - words
+	n := 1 + int(h%4)
+	if n > room {
+		n = room
+	}
+	var res []string
+	for i := 0; i < n; i++ {
+		w := make([]byte, maxWord)
+		for k := range w {
+			h = h*6364136223846793005 + 1442695040888963407
+			w[k] = '0' + byte((h>>33)&1)
+		}
+		res = append(res, string(w))
+	}
+	return res
+}
+
 // runMachine assembles, initialises and steps; stims==nil means generate them from r.
 func runMachine(r *common.Rng, s archSpec, src []string, steps int, stims []stim) {
 	m, err := build(s)
@@ -617,6 +682,10 @@ func runMachine(r *common.Rng, s archSpec, src []string, steps int, stims []stim
 	}
 	m.Program = prog
 	out.Line("P %s", strings.Join(prog.Slocs, " "))
+	if dv := dataFor(s, src, len(prog.Slocs), m.Arch.Max_word()); len(dv) > 0 {
+		m.Data.Vars = dv
+		out.Line("DV %s", strings.Join(dv, " "))
+	}
 	if withHDL {
 		emitHDL(m, src, hwOpt)
 	}
@@ -650,6 +719,11 @@ func runMachine(r *common.Rng, s archSpec, src []string, steps int, stims []stim
 					cur.or[i] = !cur.or[i]
 				}
 			}
+		}
+		if pc := int(vm.Pc); pc < len(src) && strings.HasPrefix(src[pc], "ro2rri ") {
+			// the hardware spends two clocks on this instruction (address out, word in), the simulator one
+			// step: a hardware-only clock with the same stimulus first
+			out.Line("VH%s", strings.TrimPrefix(cur.line(), "V"))
 		}
 		out.Line("%s", cur.line())
 		applyStim(vm, s.rsize, cur)
